@@ -1,7 +1,9 @@
 import PolyVerif.Lemmas.LocationEval
 /-
-Helper lemmas for C02, part 4: what `BuildLocationString` writes for `embedW w l`, and that the
-strict INSDC recogniser reads canonical text back (`insdcParse (print l) = some l`).
+Helper lemmas for C02, part 4: the two text styles (`tprint false` = canonical INSDC text =
+`print`; `tprint true` = the writer's style, 3′ marker after the end position), `norm` (a single
+base is written as `n..n`), and the recogniser round trip: the strict recogniser reads canonical
+text back, the lenient one reads both styles back.
 -/
 namespace PolyVerif.Lemmas.Location
 open PolyVerif PolyVerif.Location PolyVerif.Insdc
@@ -18,87 +20,77 @@ def normList : List Loc → List Loc
   | x :: xs => norm x :: normList xs
 end
 
-/-- operands each followed by a comma: the writer's loop -/
-def printAfter : List Loc → Str
+mutual
+/-- location text; `w = false`: canonical (`a..>b`), `w = true`: as BuildLocationString writes a
+3′-partial span (`a..b>`) -/
+def tprint (w : Bool) : Loc → Str
+  | .span a b lt gt =>
+    (if lt then ['<'] else []) ++ (itoa a ++ ['.', '.'] ++
+      (if w then itoa b ++ (if gt then ['>'] else []) else (if gt then ['>'] else []) ++ itoa b))
+  | .base n => itoa n
+  | .join [] => txtJoin ++ [')']
+  | .join (x :: xs) => txtJoin ++ (tprint w x ++ (tprintTail w xs ++ [')']))
+  | .compl x => txtCompl ++ (tprint w x ++ [')'])
+def tprintTail (w : Bool) : List Loc → Str
   | [] => []
-  | x :: xs => print x ++ ',' :: printAfter xs
+  | x :: xs => ',' :: (tprint w x ++ tprintTail w xs)
+end
 
-theorem printAfter_tail : ∀ (xs : List Loc) (x : Loc),
-    print x ++ ',' :: printAfter xs = (print x ++ printTail xs) ++ [',']
-  | [], x => by simp [printAfter, printTail]
+mutual
+theorem tprint_false : ∀ (l : Loc), tprint false l = print l
+  | .span a b lt gt => by simp [tprint, print, decimal_eq_itoa]
+  | .base n => by simp [tprint, print, decimal_eq_itoa]
+  | .join [] => by simp [tprint, print]
+  | .join (x :: xs) => by simp [tprint, print, tprint_false x, tprintTail_false xs]
+  | .compl x => by simp [tprint, print, tprint_false x]
+theorem tprintTail_false : ∀ (xs : List Loc), tprintTail false xs = printTail xs
+  | [] => rfl
+  | x :: xs => by simp [tprintTail, printTail, tprint_false x, tprintTail_false xs]
+end
+
+mutual
+/-- without a 3′-partial span the writer's style is the canonical text -/
+theorem tprint_noGt : ∀ (l : Loc), hasGt l = false → tprint true l = tprint false l
+  | .span a b lt gt, h => by
+    simp only [hasGt] at h
+    subst h
+    simp [tprint]
+  | .base n, _ => rfl
+  | .join [], _ => rfl
+  | .join (x :: xs), h => by
+    simp only [hasGt, hasGtList, Bool.or_eq_false_iff] at h
+    simp [tprint, tprint_noGt x h.1, tprintTail_noGt xs h.2]
+  | .compl x, h => by
+    simp only [hasGt] at h
+    simp [tprint, tprint_noGt x h]
+theorem tprintTail_noGt : ∀ (xs : List Loc), hasGtList xs = false → tprintTail true xs = tprintTail false xs
+  | [], _ => rfl
+  | x :: xs, h => by
+    simp only [hasGtList, Bool.or_eq_false_iff] at h
+    simp [tprintTail, tprint_noGt x h.1, tprintTail_noGt xs h.2]
+end
+
+/-- operands each followed by a comma: the writer's loop -/
+def tprintAfter (w : Bool) : List Loc → Str
+  | [] => []
+  | x :: xs => tprint w x ++ ',' :: tprintAfter w xs
+
+theorem tprintAfter_tail (w : Bool) : ∀ (xs : List Loc) (x : Loc),
+    tprint w x ++ ',' :: tprintAfter w xs = (tprint w x ++ tprintTail w xs) ++ [',']
+  | [], x => by simp [tprintAfter, tprintTail]
   | y :: ys, x => by
-    have ih := printAfter_tail ys y
-    simp only [printAfter, printTail]
+    have ih := tprintAfter_tail w ys y
+    simp only [tprintAfter, tprintTail]
     rw [ih]
     simp
 
 theorem trimComma_concat (s : Str) : trimComma (s ++ [',']) = s := by
   simp [trimComma]
 
-theorem buildLoc_setCompl (q : PLoc) (hq : q.complement = false) :
-    buildLoc { q with complement := true } = Location.complOpen ++ buildLoc q ++ [')'] := by
-  obtain ⟨s, e, c, j, f, t, subs⟩ := q
-  simp only at hq
-  subst hq
-  show buildLoc ⟨s, e, true, j, f, t, subs⟩ = _
-  rw [buildLoc.eq_def, buildLoc.eq_def]
-  simp
-
 theorem complOpen_eq : Location.complOpen = txtCompl := rfl
 theorem joinOpen_eq : Location.joinOpen = txtJoin := rfl
 
 theorem intCast_sub_add (a : Nat) : ((a : Int) - 1 + 1) = (a : Int) := by omega
-
-theorem buildLoc_wrapper (f t : Bool) (q : PLoc) :
-    buildLoc { complement := true, five := f, three := t, subs := [q] } = Location.complOpen ++ buildLoc q ++ [')'] := by
-  rw [buildLoc.eq_def]
-  simp
-
-mutual
-/-- the writer's text: canonical INSDC text of `norm l` — provided no span is 3′-partial (there the
-writer puts the marker after the end position) -/
-theorem buildLoc_embedW (w : Loc → Bool × Bool) : ∀ (l : Loc), arity l = true → hasGt l = false →
-    buildLoc (embedW w l) = print (norm l)
-  | .span a b lt gt, _, hg => by
-    simp only [hasGt] at hg
-    subst hg
-    rw [embedW, buildLoc.eq_def]
-    simp [norm, print, itoaInt_natCast, decimal_eq_itoa]
-  | .base n, _, _ => by
-    rw [embedW, buildLoc.eq_def]
-    simp [norm, print, itoaInt_natCast, decimal_eq_itoa]
-  | .join [], ha, _ => by simp [arity] at ha
-  | .join (x :: xs), ha, hg => by
-    simp only [arity, Bool.and_eq_true] at ha
-    simp only [hasGt] at hg
-    have ih := buildSubs_embedWList w (x :: xs) ha.2 hg
-    simp only [embedWList, normList, printAfter] at ih
-    rw [printAfter_tail] at ih
-    rw [embedW, buildLoc.eq_def]
-    simp only [embedWList, ih, norm, normList, print, joinOpen_eq, if_true, Bool.false_eq_true, if_false]
-    rw [← List.append_assoc txtJoin, trimComma_concat]
-    simp
-  | .compl x, ha, hg => by
-    simp only [arity] at ha
-    simp only [hasGt] at hg
-    have ih := buildLoc_embedW w x ha hg
-    simp only [embedW]
-    cases hc : (embedW w x).complement
-    · simp only [Bool.false_eq_true, if_false]
-      rw [buildLoc_setCompl _ hc, ih, complOpen_eq]
-      simp [norm, print]
-    · simp only [if_true]
-      rw [buildLoc_wrapper, ih, complOpen_eq]
-      simp [norm, print]
-theorem buildSubs_embedWList (w : Loc → Bool × Bool) : ∀ (xs : List Loc), arityList xs = true → hasGtList xs = false →
-    buildSubs (embedWList w xs) = printAfter (normList xs)
-  | [], _, _ => by simp [embedWList, buildSubs, normList, printAfter]
-  | x :: xs, ha, hg => by
-    simp only [arityList, Bool.and_eq_true] at ha
-    simp only [hasGtList, Bool.or_eq_false_iff] at hg
-    simp [embedWList, buildSubs, normList, printAfter, buildLoc_embedW w x ha.1 hg.1,
-      buildSubs_embedWList w xs ha.2 hg.2]
-end
 
 /-! ### `norm` keeps the reading, the ends and well-formedness -/
 
@@ -122,6 +114,17 @@ theorem ends_norm : ∀ (l : Loc), ends (norm l) = ends l
 theorem endsList_normList : ∀ (xs : List Loc), endsList (normList xs) = endsList xs
   | [] => rfl
   | x :: xs => by simp [normList, endsList, ends_norm x, endsList_normList xs]
+end
+
+mutual
+theorem hasGt_norm : ∀ (l : Loc), hasGt (norm l) = hasGt l
+  | .span _ _ _ _ => rfl
+  | .base _ => rfl
+  | .join xs => by simp [norm, hasGt, hasGtList_normList xs]
+  | .compl x => by simp [norm, hasGt, hasGt_norm x]
+theorem hasGtList_normList : ∀ (xs : List Loc), hasGtList (normList xs) = hasGtList xs
+  | [] => rfl
+  | x :: xs => by simp [normList, hasGtList, hasGt_norm x, hasGtList_normList xs]
 end
 
 theorem length_normList : ∀ (xs : List Loc), (normList xs).length = xs.length
@@ -164,7 +167,7 @@ theorem arityList_normList : ∀ (xs : List Loc), arityList xs = true → arityL
     simp [normList, arityList, arity_norm x h.1, arityList_normList xs h.2]
 end
 
-/-! ### the strict recogniser reads canonical text back -/
+/-! ### the recogniser reads the text back -/
 
 /-- what may follow a location inside a location: nothing, `)` or `,` -/
 def Stop (s : Str) : Prop := ∀ c t, s = c :: t → c = ')' ∨ c = ','
@@ -193,104 +196,147 @@ theorem stripPrefix_head_ne (x : Char) (a : Str) (c : Char) (r : Str) (h : x ≠
     stripPrefix (x :: a) (c :: r) = none := by
   simp [stripPrefix, h]
 
+theorem Stop.noGtHead {s : Str} (h : Stop s) : (s.head? == some '>') = false := by
+  cases s with
+  | nil => rfl
+  | cons c t =>
+    rcases h c t rfl with rfl | rfl <;> simp
+
 theorem marker_strip (m : Char) (b : Bool) (c : Char) (t : Str) (hc : c ≠ m) :
     ((((if b then [m] else []) ++ c :: t).head? == some m) = b) ∧
     ((if b then ((if b then [m] else []) ++ c :: t).drop 1 else ((if b then [m] else []) ++ c :: t)) = c :: t) := by
   cases b <;> simp [hc]
 
-theorem readLeaf_span (a b : Nat) (lt gt : Bool) (rest : Str) (h1 : 1 ≤ a) (h2 : a ≤ b) (hr : Stop rest) :
-    readLeaf (print (.span a b lt gt) ++ rest) = some (.span a b lt gt, rest) := by
-  rw [print_span]
+/-- the common first half of reading a span: `[<] a ..` -/
+theorem readLeaf_front (len : Bool) (a : Nat) (lt : Bool) (tail : Str) (h1 : 1 ≤ a) :
+    readLeaf len ((if lt then ['<'] else []) ++ (itoa a ++ '.' :: '.' :: tail)) =
+      (let gt := tail.head? == some '>'
+       let s4 := if gt then tail.drop 1 else tail
+       match readNat s4 with
+       | none => none
+       | some (b, s5) =>
+         if 1 ≤ a ∧ a ≤ b then
+           if len && !gt && s5.head? == some '>' then some (.span a b lt true, s5.drop 1)
+           else some (.span a b lt gt, s5)
+         else none) := by
   obtain ⟨ca, ta, hsa, hca⟩ := itoa_cons a
-  obtain ⟨cb, tb, hsb, hcb⟩ := itoa_cons b
   have na := isDig_ne hca
-  have nb := isDig_ne hcb
-  have dots : NoDigHead ('.' :: '.' :: ((if gt then ['>'] else []) ++ (itoa b ++ rest))) := by
+  have dots : NoDigHead ('.' :: '.' :: tail) := by
     intro c t e; cases e; decide
-  have r1 := readNat_itoa a _ dots
-  have r2 := readNat_itoa b rest hr.noDig
-  have e1 : (if lt then ['<'] else []) ++ (itoa a ++ ['.', '.'] ++ ((if gt then ['>'] else []) ++ itoa b)) ++ rest
-      = (if lt then ['<'] else []) ++ ca :: (ta ++ '.' :: '.' :: ((if gt then ['>'] else []) ++ (itoa b ++ rest))) := by
-    rw [hsa]; simp
-  have m1 := marker_strip '<' lt ca (ta ++ '.' :: '.' :: ((if gt then ['>'] else []) ++ (itoa b ++ rest))) na.2.2.1
-  have e2 : (if gt then ['>'] else []) ++ (itoa b ++ rest) = (if gt then ['>'] else []) ++ cb :: (tb ++ rest) := by
-    rw [hsb]; simp
-  have m2 := marker_strip '>' gt cb (tb ++ rest) nb.2.2.2.1
+  have r1 := readNat_itoa a _ h1 dots
+  have m1 := marker_strip '<' lt ca (ta ++ '.' :: '.' :: tail) na.2.2.1
+  have sp : stripPrefix ['.', '.'] ('.' :: '.' :: tail) = some tail := stripPrefix_append ['.', '.'] _
+  rw [hsa] at r1 ⊢
+  simp only [List.cons_append] at r1 ⊢
   unfold readLeaf
-  rw [e1]
   simp only [m1.1, m1.2]
-  rw [hsa] at r1
-  rw [hsb] at r2
-  simp only [List.cons_append] at r1 r2
   rw [r1]
-  have sp : stripPrefix ['.', '.'] ('.' :: '.' :: ((if gt then ['>'] else []) ++ (itoa b ++ rest))) =
-      some ((if gt then ['>'] else []) ++ (itoa b ++ rest)) := stripPrefix_append ['.', '.'] _
   simp only [sp]
-  rw [e2]
-  simp only [m2.1]
-  simp only [m2.2, r2]
-  simp [h1, h2]
+  rfl
 
-theorem readLeaf_base (n : Nat) (rest : Str) (h1 : 1 ≤ n) (hr : Stop rest) :
-    readLeaf (print (.base n) ++ rest) = some (.base n, rest) := by
-  rw [print_base]
+theorem readLeaf_span (len w : Bool) (hw : w = true → len = true) (a b : Nat) (lt gt : Bool) (rest : Str)
+    (h1 : 1 ≤ a) (h2 : a ≤ b) (hr : Stop rest) :
+    readLeaf len (tprint w (.span a b lt gt) ++ rest) = some (.span a b lt gt, rest) := by
+  obtain ⟨cb, tb, hsb, hcb⟩ := itoa_cons b
+  have nb := isDig_ne hcb
+  cases w
+  · -- canonical text
+    have e : tprint false (.span a b lt gt) ++ rest =
+        (if lt then ['<'] else []) ++ (itoa a ++ '.' :: '.' :: ((if gt then ['>'] else []) ++ cb :: (tb ++ rest))) := by
+      simp [tprint, hsb]
+    rw [e, readLeaf_front len a lt _ h1]
+    have m2 := marker_strip '>' gt cb (tb ++ rest) nb.2.2.2.1
+    have r2 := readNat_itoa b rest (by omega) hr.noDig
+    rw [hsb] at r2
+    simp only [List.cons_append] at r2
+    simp only [m2.1]
+    simp only [m2.2, r2, hr.noGtHead]
+    simp [h1, h2]
+  · -- the writer's style
+    have hl : len = true := hw rfl
+    subst hl
+    have e : tprint true (.span a b lt gt) ++ rest =
+        (if lt then ['<'] else []) ++ (itoa a ++ '.' :: '.' :: (cb :: (tb ++ ((if gt then ['>'] else []) ++ rest)))) := by
+      simp [tprint, hsb]
+    rw [e, readLeaf_front true a lt _ h1]
+    have nd : NoDigHead ((if gt then ['>'] else []) ++ rest) := by
+      cases gt
+      · simpa using hr.noDig
+      · intro c t e; cases e; decide
+    have r2 := readNat_itoa b _ (by omega) nd
+    rw [hsb] at r2
+    simp only [List.cons_append] at r2
+    have hh : ((cb :: (tb ++ ((if gt then ['>'] else []) ++ rest))).head? == some '>') = false := by
+      simp [nb.2.2.2.1]
+    simp only [hh, Bool.false_eq_true, if_false, r2]
+    cases gt
+    · simp [h1, h2, hr.noGtHead]
+    · simp [h1, h2]
+
+theorem readLeaf_base (len w : Bool) (n : Nat) (rest : Str) (h1 : 1 ≤ n) (hr : Stop rest) :
+    readLeaf len (tprint w (.base n) ++ rest) = some (.base n, rest) := by
   obtain ⟨cn, tn, hsn, hcn⟩ := itoa_cons n
   have nn := isDig_ne hcn
-  have r1 := readNat_itoa n rest hr.noDig
+  have r1 := readNat_itoa n rest h1 hr.noDig
+  simp only [tprint]
   rw [hsn] at r1 ⊢
   simp only [List.cons_append] at r1 ⊢
   unfold readLeaf
   simp only [List.head?_cons, Option.some.injEq, beq_iff_eq, nn.2.2.1, if_false, r1, hr.noDots]
   simp [h1]
 
-theorem readLoc_leaf (f : Nat) (c : Char) (t : Str) (hc : c ≠ 'c') (hj : c ≠ 'j') :
-    readLoc (f + 1) (c :: t) = readLeaf (c :: t) := by
+theorem readLoc_leaf (len : Bool) (f : Nat) (c : Char) (t : Str) (hc : c ≠ 'c') (hj : c ≠ 'j') :
+    readLoc len (f + 1) (c :: t) = readLeaf len (c :: t) := by
   unfold readLoc
   simp [txtCompl, txtJoin, stripPrefix, Ne.symm hc, Ne.symm hj]
 
-theorem span_head (a b : Nat) (lt gt : Bool) (rest : Str) :
-    ∃ c t, print (.span a b lt gt) ++ rest = c :: t ∧ c ≠ 'c' ∧ c ≠ 'j' := by
-  rw [print_span]
+theorem span_head (w : Bool) (a b : Nat) (lt gt : Bool) (rest : Str) :
+    ∃ c t, tprint w (.span a b lt gt) ++ rest = c :: t ∧ c ≠ 'c' ∧ c ≠ 'j' := by
   obtain ⟨ca, ta, hsa, hca⟩ := itoa_cons a
   have na := isDig_ne hca
   cases lt
-  · exact ⟨ca, _, by rw [hsa]; simp; rfl, na.2.2.2.2.2.2.2.2.1, na.2.2.2.2.2.2.2.2.2⟩
-  · exact ⟨'<', _, by simp; rfl, by decide, by decide⟩
+  · exact ⟨ca, _, by simp [tprint, hsa]; rfl, na.2.2.2.2.2.2.2.2.1, na.2.2.2.2.2.2.2.2.2⟩
+  · exact ⟨'<', _, by simp [tprint]; rfl, by decide, by decide⟩
 
-theorem base_head (n : Nat) (rest : Str) :
-    ∃ c t, print (.base n) ++ rest = c :: t ∧ c ≠ 'c' ∧ c ≠ 'j' := by
-  rw [print_base]
+theorem base_head (w : Bool) (n : Nat) (rest : Str) :
+    ∃ c t, tprint w (.base n) ++ rest = c :: t ∧ c ≠ 'c' ∧ c ≠ 'j' := by
   obtain ⟨cn, tn, hsn, hcn⟩ := itoa_cons n
   have nn := isDig_ne hcn
-  exact ⟨cn, _, by rw [hsn]; rfl, nn.2.2.2.2.2.2.2.2.1, nn.2.2.2.2.2.2.2.2.2⟩
+  exact ⟨cn, _, by simp [tprint, hsn]; rfl, nn.2.2.2.2.2.2.2.2.1, nn.2.2.2.2.2.2.2.2.2⟩
 
-theorem stop_tail : ∀ (xs : List Loc) (rest : Str), Stop (printTail xs ++ ')' :: rest)
-  | [], rest => by simpa [printTail] using Stop.close rest
-  | x :: xs, rest => by simpa [printTail] using Stop.comma _
+theorem stop_tail (w : Bool) : ∀ (xs : List Loc) (rest : Str), Stop (tprintTail w xs ++ ')' :: rest)
+  | [], rest => by simpa [tprintTail] using Stop.close rest
+  | x :: xs, rest => by simpa [tprintTail] using Stop.comma _
 
 theorem stripCompl_join (r : Str) : stripPrefix txtCompl (txtJoin ++ r) = none := by
   simp [txtCompl, txtJoin, stripPrefix]
 
+theorem length_tprintTail_cons (w : Bool) (x : Loc) (xs : List Loc) :
+    (tprintTail w (x :: xs)).length = 1 + (tprint w x).length + (tprintTail w xs).length := by
+  simp [tprintTail]; omega
+
 mutual
-/-- the recogniser reads a printed location at the head of the input and stops right after it -/
-theorem readLoc_print : ∀ (l : Loc) (n f : Nat) (rest : Str), inRange l n = true → arity l = true →
-    (print l).length + rest.length < f → Stop rest → readLoc f (print l ++ rest) = some (l, rest)
+/-- the recogniser reads a printed location at the head of the input and stops right after it
+(the writer's style needs the lenient recogniser) -/
+theorem readLoc_tprint (len w : Bool) (hw : w = true → len = true) : ∀ (l : Loc) (n f : Nat) (rest : Str),
+    inRange l n = true → arity l = true → (tprint w l).length + rest.length < f → Stop rest →
+    readLoc len f (tprint w l ++ rest) = some (l, rest)
   | .span a b lt gt, n, f, rest, hr, _, hf, hs => by
     cases f with
     | zero => omega
     | succ f =>
       simp only [inRange, Bool.and_eq_true, decide_eq_true_eq] at hr
-      obtain ⟨c, t, e, hc, hj⟩ := span_head a b lt gt rest
-      rw [e, readLoc_leaf f c t hc hj, ← e]
-      exact readLeaf_span a b lt gt rest hr.1.1 hr.1.2 hs
+      obtain ⟨c, t, e, hc, hj⟩ := span_head w a b lt gt rest
+      rw [e, readLoc_leaf len f c t hc hj, ← e]
+      exact readLeaf_span len w hw a b lt gt rest hr.1.1 hr.1.2 hs
   | .base k, n, f, rest, hr, _, hf, hs => by
     cases f with
     | zero => omega
     | succ f =>
       simp only [inRange, Bool.and_eq_true, decide_eq_true_eq] at hr
-      obtain ⟨c, t, e, hc, hj⟩ := base_head k rest
-      rw [e, readLoc_leaf f c t hc hj, ← e]
-      exact readLeaf_base k rest hr.1 hs
+      obtain ⟨c, t, e, hc, hj⟩ := base_head w k rest
+      rw [e, readLoc_leaf len f c t hc hj, ← e]
+      exact readLeaf_base len w k rest hr.1 hs
   | .join [], _, _, _, _, ha, _, _ => by simp [arity] at ha
   | .join [_], _, _, _, _, ha, _, _ => by simp [arity] at ha
   | .join (x :: y :: ys), n, f, rest, hr, ha, hf, hs => by
@@ -299,15 +345,16 @@ theorem readLoc_print : ∀ (l : Loc) (n f : Nat) (rest : Str), inRange l n = tr
     | succ f =>
       simp only [inRange, inRangeList, Bool.and_eq_true] at hr
       simp only [arity, arityList, Bool.and_eq_true] at ha
-      have hlen : (print (.join (x :: y :: ys))).length = 5 + ((print x).length + ((printTail (y :: ys)).length + 1)) := by
-        simp only [print, txtJoin, List.length_append, List.length_cons, List.length_nil]
-      have ihx := readLoc_print x n f (printTail (y :: ys) ++ ')' :: rest) hr.1 ha.2.1
-        (by simp only [List.length_append, List.length_cons]; omega) (stop_tail _ _)
-      have iht := readTail_printTail (y :: ys) n f rest (by simp [inRangeList, hr.2.1, hr.2.2])
+      have hlen : (tprint w (.join (x :: y :: ys))).length =
+          5 + ((tprint w x).length + ((tprintTail w (y :: ys)).length + 1)) := by
+        simp only [tprint, txtJoin, List.length_append, List.length_cons, List.length_nil]
+      have ihx := readLoc_tprint len w hw x n f (tprintTail w (y :: ys) ++ ')' :: rest) hr.1 ha.2.1
+        (by simp only [List.length_append, List.length_cons]; omega) (stop_tail w _ _)
+      have iht := readTail_tprintTail len w hw (y :: ys) n f rest (by simp [inRangeList, hr.2.1, hr.2.2])
         (by simp [arityList, ha.2.2.1, ha.2.2.2]) (by omega)
-      have e : print (.join (x :: y :: ys)) ++ rest =
-          txtJoin ++ (print x ++ (printTail (y :: ys) ++ ')' :: rest)) := by
-        simp [print]
+      have e : tprint w (.join (x :: y :: ys)) ++ rest =
+          txtJoin ++ (tprint w x ++ (tprintTail w (y :: ys) ++ ')' :: rest)) := by
+        simp [tprint]
       rw [e]
       unfold readLoc
       simp only [stripCompl_join, stripPrefix_append, ihx, iht]
@@ -317,23 +364,23 @@ theorem readLoc_print : ∀ (l : Loc) (n f : Nat) (rest : Str), inRange l n = tr
     | succ f =>
       simp only [inRange] at hr
       simp only [arity] at ha
-      have hlen : (print (.compl x)).length = 11 + ((print x).length + 1) := by
-        simp only [print, txtCompl, List.length_append, List.length_cons, List.length_nil]
-      have ihx := readLoc_print x n f (')' :: rest) hr ha
+      have hlen : (tprint w (.compl x)).length = 11 + ((tprint w x).length + 1) := by
+        simp only [tprint, txtCompl, List.length_append, List.length_cons, List.length_nil]
+      have ihx := readLoc_tprint len w hw x n f (')' :: rest) hr ha
         (by simp only [List.length_cons]; omega) (Stop.close rest)
-      have e : print (.compl x) ++ rest = txtCompl ++ (print x ++ ')' :: rest) := by
-        simp [print]
+      have e : tprint w (.compl x) ++ rest = txtCompl ++ (tprint w x ++ ')' :: rest) := by
+        simp [tprint]
       rw [e]
       unfold readLoc
       simp only [stripPrefix_append, ihx]
-theorem readTail_printTail : ∀ (xs : List Loc) (n f : Nat) (rest : Str), inRangeList xs n = true → arityList xs = true →
-    (printTail xs).length + rest.length + 1 < f →
-    readTail f (printTail xs ++ ')' :: rest) = some (xs, ')' :: rest)
+theorem readTail_tprintTail (len w : Bool) (hw : w = true → len = true) : ∀ (xs : List Loc) (n f : Nat) (rest : Str),
+    inRangeList xs n = true → arityList xs = true → (tprintTail w xs).length + rest.length + 1 < f →
+    readTail len f (tprintTail w xs ++ ')' :: rest) = some (xs, ')' :: rest)
   | [], _, f, rest, _, _, hf => by
     cases f with
     | zero => omega
     | succ f =>
-      simp only [printTail, List.nil_append]
+      simp only [tprintTail, List.nil_append]
       unfold readTail
       rfl
   | x :: xs, n, f, rest, hr, ha, hf => by
@@ -342,22 +389,32 @@ theorem readTail_printTail : ∀ (xs : List Loc) (n f : Nat) (rest : Str), inRan
     | succ f =>
       simp only [inRangeList, Bool.and_eq_true] at hr
       simp only [arityList, Bool.and_eq_true] at ha
-      rw [length_printTail_cons] at hf
-      have ihx := readLoc_print x n f (printTail xs ++ ')' :: rest) hr.1 ha.1
-        (by simp only [List.length_append, List.length_cons]; omega) (stop_tail _ _)
-      have iht := readTail_printTail xs n f rest hr.2 ha.2 (by omega)
-      have e : printTail (x :: xs) ++ ')' :: rest = ',' :: (print x ++ (printTail xs ++ ')' :: rest)) := by
-        simp [printTail]
+      rw [length_tprintTail_cons] at hf
+      have ihx := readLoc_tprint len w hw x n f (tprintTail w xs ++ ')' :: rest) hr.1 ha.1
+        (by simp only [List.length_append, List.length_cons]; omega) (stop_tail w _ _)
+      have iht := readTail_tprintTail len w hw xs n f rest hr.2 ha.2 (by omega)
+      have e : tprintTail w (x :: xs) ++ ')' :: rest = ',' :: (tprint w x ++ (tprintTail w xs ++ ')' :: rest)) := by
+        simp [tprintTail]
       rw [e]
       unfold readTail
       simp only [ihx, iht]
 end
 
+theorem parseWith_tprint (len w : Bool) (hw : w = true → len = true) (l : Loc) (n : Nat)
+    (hr : inRange l n = true) (ha : arity l = true) : parseWith len (tprint w l) = some l := by
+  have h := readLoc_tprint len w hw l n ((tprint w l).length + 1) [] hr ha (by simp) Stop.nil
+  rw [List.append_nil] at h
+  simp [parseWith, h]
+
 /-- canonical text is accepted by the strict recogniser, which returns the tree it was printed from -/
 theorem insdcParse_print (l : Loc) (n : Nat) (hr : inRange l n = true) (ha : arity l = true) :
     insdcParse (print l) = some l := by
-  have h := readLoc_print l n ((print l).length + 1) [] hr ha (by simp) Stop.nil
-  rw [List.append_nil] at h
-  simp [insdcParse, h]
+  rw [← tprint_false]
+  exact parseWith_tprint false false (by intro h; cases h) l n hr ha
+
+/-- the lenient recogniser reads both styles back -/
+theorem insdcLenient_tprint (w : Bool) (l : Loc) (n : Nat) (hr : inRange l n = true) (ha : arity l = true) :
+    insdcLenient (tprint w l) = some l :=
+  parseWith_tprint true w (fun _ => rfl) l n hr ha
 
 end PolyVerif.Lemmas.Location
